@@ -130,6 +130,10 @@ def cell_missing(what, via):
 
         fc = _fc(rng, model)
         bad = _strip_mixture(fc.mix, what)
+        if rng.random() < 0.2:
+            from pyvaporation.mixtures import Composition
+
+            fc.comp = Composition(p=rng.choice([0.0, 1.0]), type=rng.choice(["weight", "molar"]))  # a pure feed is a valid composition
         T, x, prec = fc.t_feed, fc.comp, fc.precision
         if via == "activity coefficients":
             mk = lambda m: (lambda: calculate_activity_coefficients(T, m, x, model))
